@@ -26,8 +26,12 @@ pub enum NamingK {
     /// `TimestampsCustomFormat { current_infix: None, format: "d%Y-%m-%d" }`: a format coarser
     /// than the rotation rhythm (not in `NG`; used by single checks)
     CoarseDirect,
+    /// `TimestampsCustomFormat { current_infix: None, format: "r%d-%m-%Y_%H-%M-%S" }`: names that
+    /// do not sort chronologically (not in `NG`; used by C09)
+    DayFirstDirect,
 }
 pub const FMT_COARSE: &str = "d%Y-%m-%d";
+pub const FMT_DAY_FIRST: &str = "r%d-%m-%Y_%H-%M-%S";
 pub const NG: [NamingK; 6] = [
     NamingK::Numbers,
     NamingK::NumbersDirect,
@@ -55,6 +59,10 @@ impl NamingK {
                 current_infix: None,
                 format: FMT_COARSE,
             },
+            Self::DayFirstDirect => Naming::TimestampsCustomFormat {
+                current_infix: None,
+                format: FMT_DAY_FIRST,
+            },
         }
     }
     pub fn is_numbers(self) -> bool {
@@ -63,7 +71,7 @@ impl NamingK {
     pub fn direct(self) -> bool {
         matches!(
             self,
-            Self::NumbersDirect | Self::TimestampsDirect | Self::CustomDirect | Self::CoarseDirect
+            Self::NumbersDirect | Self::TimestampsDirect | Self::CustomDirect | Self::CoarseDirect | Self::DayFirstDirect
         )
     }
     /// The infix of the file currently written to, for the non-direct schemes.
@@ -80,6 +88,7 @@ impl NamingK {
             Self::Timestamps | Self::TimestampsDirect | Self::CustomDirect => Some(FMT_STD),
             Self::CustomCur => Some(FMT_PLAIN),
             Self::CoarseDirect => Some(FMT_COARSE),
+            Self::DayFirstDirect => Some(FMT_DAY_FIRST),
             _ => None,
         }
     }
@@ -92,6 +101,7 @@ impl NamingK {
             Self::CustomCur => "CuC",
             Self::CustomDirect => "CuD",
             Self::CoarseDirect => "CoD",
+            Self::DayFirstDirect => "DfD",
         }
     }
 }
